@@ -20,9 +20,44 @@ func c20(c *Ctx) {
 	r.Floor("C20.R4", 4)
 	r.Floor("C20.R5", 3)
 	stubFns := p.FuncsIn("internal/bytecode/stub")
-	isRMW := func(i ssa.Instruction) bool {
+	// the reservation: an atomic add on the address-typed cursor field, or — when the allocator has none — a
+	// compare-and-swap of it (a CAS loop that advances the cursor from the value it loaded)
+	onCursor := func(c *ssa.CallCommon) bool {
+		if len(c.Args) == 0 {
+			return false
+		}
+		fa, ok := c.Args[0].(*ssa.FieldAddr)
+		if !ok {
+			return false
+		}
+		fv := fieldVar(fa.X.Type(), fa.Field)
+		if fv == nil {
+			return false
+		}
+		b, ok := fv.Type().Underlying().(*types.Basic)
+		return ok && b.Kind() == types.Uintptr
+	}
+	isAdd := func(i ssa.Instruction) bool {
 		c := callCommon(i)
-		return c != nil && strings.HasPrefix(calleeName(c), "sync/atomic.Add")
+		return c != nil && strings.HasPrefix(calleeName(c), "sync/atomic.Add") && onCursor(c)
+	}
+	isCAS := func(i ssa.Instruction) bool {
+		c := callCommon(i)
+		return c != nil && strings.HasPrefix(calleeName(c), "sync/atomic.CompareAndSwap") && onCursor(c)
+	}
+	casMode := true
+	for _, f := range stubFns {
+		eachInstr(f, func(i ssa.Instruction) {
+			if isAdd(i) {
+				casMode = false
+			}
+		})
+	}
+	isRMW := func(i ssa.Instruction) bool {
+		if casMode {
+			return isCAS(i)
+		}
+		return isAdd(i)
 	}
 	isLoad := func(v ssa.Value) bool {
 		c, ok := v.(*ssa.Call)
@@ -40,7 +75,7 @@ func c20(c *Ctx) {
 		})
 	}
 	if holder == nil {
-		r.Und("C20.R1", "fallback allocator", "", "no function of package stub performs an atomic add on the reserve cursor")
+		r.Und("C20.R1", "fallback allocator", "", "no function of package stub performs an atomic add (or compare-and-swap) on the reserve cursor")
 	} else {
 		var rmw *ssa.Call
 		eachInstr(holder, func(i ssa.Instruction) {
@@ -48,11 +83,39 @@ func c20(c *Ctx) {
 				rmw, _ = i.(*ssa.Call)
 			}
 		})
-		isR := func(v ssa.Value) bool { return v == ssa.Value(rmw) }
+		// what the region must be computed from, and the reserved end
+		var resBase, resEnd ssa.Value = rmw, rmw
+		var casOld ssa.Value
+		if casMode {
+			casOld = resolveLocal(rmw.Call.Args[1])
+			resBase, resEnd = casOld, resolveLocal(rmw.Call.Args[2])
+		}
+		isR := func(v ssa.Value) bool { return v == resBase }
+		isOtherLoad := func(v ssa.Value) bool { return isLoad(v) && v != casOld }
 		// plain (non atomic) accesses of the cursor field are not allowed in the allocator
 		cursorFA, _ := rmw.Call.Args[0].(*ssa.FieldAddr)
 		if cursorFA != nil {
 			cf := fieldVar(cursorFA.X.Type(), cursorFA.Field)
+			if casMode {
+				// a compare-and-swap reserves [old, new) when it replaces the value this call loaded from the cursor by
+				// that value plus an unsigned size
+				okCas := false
+				if ld, ok := casOld.(*ssa.Call); ok && isLoad(ld) {
+					if lfa, ok := ld.Call.Args[0].(*ssa.FieldAddr); ok && fieldVar(lfa.X.Type(), lfa.Field) == cf {
+						if bo, ok := resEnd.(*ssa.BinOp); ok && bo.Op == token.ADD {
+							x, y := resolveLocal(bo.X), resolveLocal(bo.Y)
+							if y == casOld {
+								x, y = y, x
+							}
+							if b, isB := y.Type().Underlying().(*types.Basic); isB && x == casOld && b.Info()&types.IsUnsigned != 0 {
+								okCas = true
+							}
+						}
+					}
+				}
+				r.Check(okCas, "C20.R1", "compare-and-swap reservation in "+shortName(holder), p.Pos(posOf(rmw)), "the cursor is advanced from the value this call loaded to that value plus the unsigned size",
+					"the compare-and-swap on the reserve cursor does not replace the value loaded by this call with that value plus the requested size: the cursor can be rewound or a region reserved that was not measured")
+			}
 			for _, f := range stubFns {
 				if isPkgInit(f) {
 					continue
@@ -61,11 +124,15 @@ func c20(c *Ctx) {
 					if fa, ok := i.(*ssa.FieldAddr); ok && fieldVar(fa.X.Type(), fa.Field) == cf {
 						for _, ref := range *fa.Referrers() {
 							if ci, ok := ref.(ssa.CallInstruction); ok {
-								// reservations are made by atomic add and never taken back: a store / swap / compare-and-swap
-								// of the cursor can rewind it past a region another requester was given in the meantime
+								// reservations are never taken back: a store / swap (or a compare-and-swap other than the
+								// reservation itself) of the cursor can rewind it past a region another requester was given
+								// in the meantime
 								cn := calleeName(ci.Common())
+								if casMode && ci == ssa.CallInstruction(rmw) {
+									continue
+								}
 								if strings.HasPrefix(cn, "sync/atomic.Store") || strings.HasPrefix(cn, "sync/atomic.Swap") || strings.HasPrefix(cn, "sync/atomic.CompareAndSwap") {
-									r.Bad("C20.R1", "reserve cursor rewound in "+shortName(f), p.Pos(posOf(ref)), "the reserve cursor is overwritten ("+cn+") instead of only ever advanced by an atomic add: a value loaded earlier is written back after another requester reserved, and the same region is handed out twice")
+									r.Bad("C20.R1", "reserve cursor rewound in "+shortName(f), p.Pos(posOf(ref)), "the reserve cursor is overwritten ("+cn+") instead of only ever advanced by the reservation: a value loaded earlier is written back after another requester reserved, and the same region is handed out twice")
 								}
 								continue
 							}
@@ -127,7 +194,17 @@ func c20(c *Ctx) {
 					for _, pt := range parts {
 						cons := "success return of " + shortName(holder) + " " + pt.name
 						fromR := dependsOn(pt.v, isR) || slicePtrDependsOn(pt.v, isR)
-						fromL := dependsOn(pt.v, isLoad) || slicePtrDependsOn(pt.v, isLoad)
+						fromL := dependsOn(pt.v, isOtherLoad) || slicePtrDependsOn(pt.v, isOtherLoad)
+						if casMode && fromR {
+							// the value loaded is this call's own only once the compare-and-swap succeeded
+							won := false
+							for _, g := range guardsAt(ret.Block()) {
+								if g.Cond == ssa.Value(rmw) && g.Pol {
+									won = true
+								}
+							}
+							fromR = won
+						}
 						r.Check(fromR && !fromL, "C20.R1", cons, p.Pos(posOf(ret)), "region base derives from the atomic reservation result",
 							"the region handed out is computed from a value loaded before the atomic reservation (or not from the reservation at all): two concurrent requesters that load the same cursor value receive the same region")
 					}
@@ -136,8 +213,11 @@ func c20(c *Ctx) {
 				k := NewKeyer(holder)
 				m := NewDBM()
 				guardsToDBM(m, k, ret.Block())
-				newT := k.TermOf(rmw)
+				newT := k.TermOf(resEnd)
 				okB := false
+				if casMode {
+					okB = subFormBound(guardsAt(ret.Block()), resEnd)
+				}
 				for _, g := range guardsAt(ret.Block()) {
 					bo, ok := g.Cond.(*ssa.BinOp)
 					if !ok {
@@ -601,6 +681,60 @@ func slicePtrDependsOn(v ssa.Value, isT func(ssa.Value) bool) bool {
 						}
 					}
 				}
+			}
+		}
+	}
+	return false
+}
+
+// subFormBound: end = base + n is within a limit field M by the overflow-free form of the test: the guards say
+// n <= M - base and base <= M (so the subtraction does not wrap), hence base + n <= M without wrapping.
+func subFormBound(gs []Guard, end ssa.Value) bool {
+	bo, ok := end.(*ssa.BinOp)
+	if !ok || bo.Op != token.ADD {
+		return false
+	}
+	x, y := resolveLocal(bo.X), resolveLocal(bo.Y)
+	// le reports the pair (a, b) when the guard establishes a <= b
+	le := func(g Guard) (ssa.Value, ssa.Value, bool) {
+		c, ok := g.Cond.(*ssa.BinOp)
+		if !ok {
+			return nil, nil, false
+		}
+		a, b := resolveLocal(c.X), resolveLocal(c.Y)
+		switch {
+		case c.Op == token.LEQ && g.Pol, c.Op == token.GTR && !g.Pol:
+			return a, b, true
+		case c.Op == token.GEQ && g.Pol, c.Op == token.LSS && !g.Pol:
+			return b, a, true
+		}
+		return nil, nil, false
+	}
+	for _, pair := range [][2]ssa.Value{{x, y}, {y, x}} {
+		base, n := pair[0], pair[1]
+		var limit ssa.Value
+		for _, g := range gs {
+			a, b, ok := le(g)
+			if !ok || a != n {
+				continue
+			}
+			if sub, ok := b.(*ssa.BinOp); ok && sub.Op == token.SUB && resolveLocal(sub.Y) == base {
+				if _, fv, isF := fieldRef(resolveLocal(sub.X)); isF && fv != nil {
+					limit = resolveLocal(sub.X)
+				}
+			}
+		}
+		if limit == nil {
+			continue
+		}
+		_, lfv, _ := fieldRef(limit)
+		for _, g := range gs {
+			a, b, ok := le(g)
+			if !ok || a != base {
+				continue
+			}
+			if _, fv, isF := fieldRef(b); isF && fv == lfv {
+				return true
 			}
 		}
 	}
